@@ -937,7 +937,22 @@ def check_fresh_id(program, rep):
                                    :8]} if bad else None, line=f.node.lineno)
 
 
+def check_clear(program, rep):
+    """clear() leaves no entity behind (shared with C02 / C05)."""
+    from rules import c02
+    n0 = len(rep.obs)
+    c02.clear_total(program, rep)
+    for o in rep.obs[n0:]:
+        o.rule = 'C01.clear'
+        if o.verdict == 'violated':
+            o.why = ('clear() does not delete every row of the component '
+                     'table (it iterates a filtered view): entities awaiting '
+                     'deletion survive clear() and every query reports them '
+                     'afterwards')
+
+
 def run(program, rep, tier):
+    check_clear(program, rep)
     check_owners(program, rep)
     analyse_writers(program, rep)
     check_readers(program, rep)
